@@ -29,7 +29,67 @@ fn mutate(s: &str, rng: &mut Rng) -> String {
     v.into_iter().collect()
 }
 
+/// constructors and field records with years anywhere in i32: a RangeError / TypeError, never a panic, never accepted outside the limits
+fn huge_years(rng: &mut Rng, fails: &mut Vec<Failure>) {
+    use temporal_rs::options::ArithmeticOverflow;
+    use temporal_rs::partial::PartialDate;
+    use temporal_rs::Calendar;
+    let mut years: Vec<i32> = vec![i32::MAX, i32::MIN, 2_000_000_000, -2_000_000_000, 6_000_000, -6_000_000, 1_470_000, -1_470_000, 275_761, -271_822];
+    for _ in 0..40 { years.push(rng.range(i32::MIN as i128, i32::MAX as i128) as i32); }
+    for y in years {
+        if (-271_821..=275_760).contains(&y) { continue; }
+        for (m, d) in [(2u8, 29u8), (1, 1), (12, 31), (13, 40), (0, 0)] {
+            for ov in [ArithmeticOverflow::Constrain, ArithmeticOverflow::Reject] {
+                macro_rules! t { ($name:literal, $e:expr) => {
+                    match catch_unwind(|| $e.map(|_| ())) {
+                        Err(_) => fails.push(Failure { what: format!("{} panicked", $name), input: format!("year={y} month={m} day={d} overflow={ov:?}"), expected: "RangeError".into(), observed: "panic".into() }),
+                        Ok(Ok(())) => fails.push(Failure { what: format!("{} accepted a year outside the limits", $name), input: format!("year={y} month={m} day={d} overflow={ov:?}"), expected: "RangeError".into(), observed: "Ok".into() }),
+                        Ok(Err(_)) => {}
+                    } } }
+                t!("PlainDate::new_with_overflow", PlainDate::new_with_overflow(y, m, d, Calendar::default(), ov));
+                t!("PlainDate::try_new", PlainDate::try_new(y, m, d, Calendar::default()));
+                t!("PlainDate::new", PlainDate::new(y, m, d, Calendar::default()));
+                t!("PlainDateTime::new_with_overflow", PlainDateTime::new_with_overflow(y, m, d, 0, 0, 0, 0, 0, 0, Calendar::default(), ov));
+                t!("PlainDateTime::try_new", PlainDateTime::try_new(y, m, d, 0, 0, 0, 0, 0, 0, Calendar::default()));
+                t!("PlainYearMonth::new_with_overflow", PlainYearMonth::new_with_overflow(y, m, Some(d), Calendar::default(), ov));
+                t!("PlainMonthDay::new_with_overflow", PlainMonthDay::new_with_overflow(m, d, Calendar::default(), ov, Some(y)));
+                let mut p = PartialDate::default(); p.year = Some(y); p.month = Some(m); p.day = Some(d);
+                t!("PlainDate::from_partial", PlainDate::from_partial(p.clone(), Some(ov)));
+                t!("PlainYearMonth::from_partial", PlainYearMonth::from_partial(p.clone(), ov));
+                if let Ok(base) = PlainDate::try_new(2020, 2, 29, Calendar::default()) {
+                    let mut q = PartialDate::default(); q.year = Some(y);
+                    t!("PlainDate::with", base.with(q, Some(ov)));
+                }
+                if fails.len() >= 5 { return; }
+            }
+        }
+    }
+}
+
+/// wall-clock -> instant in named zones far beyond the explicit transition table (POSIX rule evaluation): no panic in any year
+fn far_future(rng: &mut Rng, fails: &mut Vec<Failure>) {
+    use temporal_rs::options::Disambiguation;
+    use temporal_rs::Calendar;
+    for tzs in ["America/New_York", "Europe/Berlin", "Australia/Sydney", "America/Sao_Paulo", "Asia/Tokyo", "Africa/Casablanca"] {
+        let Ok(tz) = TimeZone::try_from_str(tzs) else { continue };
+        let mut years: Vec<i32> = vec![2038, 2040, 2100, 3968, 3969, 3972, 4001, 4969, 4970, 10_000, 100_000, 275_000];
+        for _ in 0..60 { years.push(rng.range(2038, 275_700) as i32); }
+        for y in years {
+            for (m, d) in [(1u8, 1u8), (2, 28), (2, 29), (3, 1), (3, 31), (6, 30), (10, 31), (12, 31)] {
+                let Ok(pdt) = PlainDateTime::try_new(y, m, d, 1, 30, 0, 0, 0, 0, Calendar::default()) else { continue };
+                if catch_unwind(|| { let _ = pdt.to_zoned_date_time(&tz, Disambiguation::Compatible); }).is_err() {
+                    fails.push(Failure { what: "PlainDateTime::to_zoned_date_time panicked".into(), input: format!("{y:04}-{m:02}-{d:02}T01:30 [{tzs}]"), expected: "a value or a RangeError".into(), observed: "panic".into() });
+                    if fails.len() >= 5 { return; }
+                }
+            }
+        }
+    }
+}
+
 pub fn search(rng: &mut Rng, budget: u64, fails: &mut Vec<Failure>) {
+    huge_years(rng, fails);
+    if fails.is_empty() { far_future(rng, fails); }
+    if !fails.is_empty() { return; }
     for k in 0..budget {
         let base = SEEDS[(k % SEEDS.len() as u64) as usize];
         let text = if k < SEEDS.len() as u64 { base.to_string() } else { mutate(base, rng) };
